@@ -244,3 +244,56 @@ def h_datetime_pure(kind: int, nparams: int) -> bool:
     ev2["dtstart"] = v
     one = ev2.to_ical()
     return one == ev2.to_ical() and ev.to_ical() == before and one == before
+
+
+_ADDR = ["mailto:b@x", "mailto:a@x", "mailto:c@x"]
+_QUOTE_IF = (",", ";", ":", " ", "'", "’")     # the characters dquote() quotes for
+
+
+def _model_value(v):
+    """hash-free model of one parameter value: list entries in the given order, repeats kept,
+    each double-quoted when it contains a delimiter"""
+    items = v if isinstance(v, list) else [v]
+    out = []
+    for it in items:
+        out.append('"' + it + '"' if any(ch in it for ch in _QUOTE_IF) else it)
+    return ",".join(out)
+
+
+def h_hashseed(i0: int, i1: int, i2: int, j0: int, j1: int, p: int) -> bool:
+    """
+    Run under several PYTHONHASHSEED values (one registered condition per seed): the bytes equal a
+    model rendering that uses only lists and sorted() - so any dependence on set/hash iteration
+    order, or loss of repeated entries, shows as a deviation under at least one seed.
+    Multi-valued parameters (MEMBER, DELEGATED-TO) with symbolic, possibly repeated entries; the
+    insertion order of the parameters is a symbolic permutation; a zoned DTSTART and a multi-part
+    RRULE given as dict ride along.
+
+    pre: 0 <= i0 < 3 and 0 <= i1 < 3 and 0 <= i2 < 3 and 0 <= j0 < 2 and 0 <= j1 < 2 and 0 <= p < 6
+    post: _
+    """
+    member = [_ADDR[_concrete(i0, 3)], _ADDR[_concrete(i1, 3)], _ADDR[_concrete(i2, 3)]]
+    deleg = [_ADDR[_concrete(j0, 2)], _ADDR[_concrete(j1, 2)]]
+    plist = [("MEMBER", member), ("DELEGATED-TO", deleg), ("CN", "A; B")]
+    params = {}
+    for k in _perm(3, _concrete(p, 6)):
+        params[plist[k][0]] = list(plist[k][1]) if isinstance(plist[k][1], list) else plist[k][1]
+    ev = Event()
+    ev.add("attendee", "mailto:x@y", parameters=params)
+    ev.add("dtstart", datetime(2020, 3, 29, 2, 30, tzinfo=_VIENNA))
+    ev.add("dtend", datetime(2020, 3, 29, 2, 30, tzinfo=_UTC))
+    ev.add("rrule", {"FREQ": ["WEEKLY"], "BYDAY": ["TU", "MO", "TU"], "BYMONTH": [3, 1], "COUNT": [4]})
+    ev.add("categories", ["b", "a", "b"])
+    got = ev.to_ical()
+    if got != ev.to_ical():
+        return False
+    lines = got.decode("utf-8").replace("\r\n ", "").split("\r\n")
+    att = "ATTENDEE;" + ";".join(k + "=" + _model_value(v) for k, v in sorted(plist)) + ":mailto:x@y"
+    want = ["BEGIN:VEVENT",
+            "DTSTART;TZID=Europe/Vienna:20200329T023000",
+            "DTEND:20200329T023000Z",
+            "RRULE:FREQ=WEEKLY;COUNT=4;BYDAY=TU,MO,TU;BYMONTH=3,1",
+            att,
+            "CATEGORIES:b,a,b",
+            "END:VEVENT", ""]
+    return lines == want
